@@ -3,8 +3,8 @@ from ..core import Script, Rng
 from ..stage import LineStage, replay_line
 from .common import *
 
-ARTEFACTS = ["G1-consts", "G2-rs-portable", "G2-ref-compress", "G15-rs-sse41", "G24-portable-many"]
-EXTRA_PROPS = [("B3.Simd.Sse41Props", "B3/Simd/Sse41Props.lean"), ("B3.Simd.Sse41PropsMany", "B3/Simd/Sse41PropsMany.lean"), ("B3.Props.C05P", "B3/Props/C05P.lean")]
+ARTEFACTS = ["G1-consts", "G2-rs-portable", "G2-ref-compress", "G15-rs-sse41", "G24-portable-many", "G16-rs-avx2", "G17-rs-sse2", "G21-c-avx512", "G21-c-avx512-prog"]
+EXTRA_PROPS = [("B3.Simd.Sse41Props", "B3/Simd/Sse41Props.lean"), ("B3.Simd.Sse41PropsMany", "B3/Simd/Sse41PropsMany.lean"), ("B3.Props.C05P", "B3/Props/C05P.lean"), ("B3.Simd.Avx2Props", "B3/Simd/Avx2Props.lean"), ("B3.Simd.Sse2Props", "B3/Simd/Sse2Props.lean"), ("B3.Simd.CAvx512Props", "B3/Simd/CAvx512Props.lean")]
 RULE = ("kernel calls, compared with the model's kernels (generated from src/portable.rs, proved = Spec.compress): single-block "
         "kernels on the grid block_len 0..64 x flag byte classes with random cv/block and counters from {0,1,2^32-1,2^32,2^32+1,2^63,"
         "2^64-1,random}; hash_many with num_inputs 0..2*degree+3, blocks in {1,16}, counters 2^32-k (k<=17) and near 2^64 so every "
@@ -137,6 +137,105 @@ class SimdModelStage:
         return dict(evaluations=len(model_lines), distinct=set(model_lines), hist={"cases": len(model_lines)}, samples=[impl_lines[1:3]], mismatches=mism)
 
 
+class SimdModelStage2:
+    """the functions generated from src/rust_sse2.rs, src/rust_avx2.rs (pure build) and c/blake3_avx512.c (`avx512_c` of harness/c)
+    evaluated with the lane models, against the compiled kernels on the same inputs"""
+    name = "simd-generated-vs-cpu"
+
+    def __init__(self, seed, n):
+        self.seed, self.n = seed, n
+
+    def run(self, lean_exe):
+        from .. import core
+        from .io_gen import lcg_bytes
+        import subprocess
+        rng = Rng(self.seed)
+        mism, evals, distinct = [], 0, set()
+
+        def lean_run(script, lines, mod):
+            rcb, outb = core.run(["lake", "build", mod], cwd=core.LEAN_DIR, timeout=3600)
+            if rcb != 0:
+                return None, outb[-1500:]
+            try:
+                pr = subprocess.run(["lake", "env", "lean", "--run", script], cwd=core.LEAN_DIR, input="\n".join(lines) + "\n",
+                                    stdout=subprocess.PIPE, stderr=subprocess.PIPE, text=True, timeout=3000)
+                return pr.stdout.split("\n"), ""
+            except subprocess.TimeoutExpired:
+                return [], "timeout"
+
+        # ---- Rust SSE2 / AVX2 (pure build)
+        ok, exe, log = core.build_rs(("pure",))
+        if ok:
+            impl_lines, model_lines = [], []
+            for i in range(self.n):
+                k = rng.choice(["cip", "cxof"])
+                cv, blk = rhex(rng, 32), rhex(rng, 64)
+                bl, ctr, fl = rng.randrange(0, 65), counters(rng), rng.randrange(256)
+                impl_lines.append(f"K {k} sse2 {cv} {blk} {bl} {ctr} {fl}")
+                model_lines.append(f"sse2:{k} {cv} {blk} {bl} {ctr} {fl}")
+            for i in range(max(6, self.n // 6)):
+                fam = rng.choice(["sse2", "avx2"])
+                n = rng.choice([1, 3, 4, 5, 7, 8, 9, 12, 17])
+                blocks = rng.choice([1, 1, 16])
+                seed = rng.randrange(1 << 30)
+                key = rhex(rng, 32)
+                ctr = min(rng.choice([0, (1 << 32) - rng.randrange(0, 18), (1 << 31) - rng.randrange(0, 18), rng.randrange(1 << 62)]), M64 - n)
+                incr, fl, fs, fe = rng.randrange(2), rng.randrange(256), rng.randrange(256), rng.randrange(256)
+                impl_lines.append(f"K hmany {fam} {n} {blocks} {seed} {key} {ctr} {incr} {fl} {fs} {fe} 0 0")
+                ins = " ".join(lcg_bytes(blocks * 64, (seed + j) % (1 << 64)).hex() for j in range(n))
+                model_lines.append(f"{fam}:hmany {blocks * 64} {n} {key} {ctr} {incr} {fl} {fs} {fe} {ins}")
+            rc, out, _ = core.run_driver(exe, impl_lines)
+            mo, err = lean_run("RunSimd2.lean", model_lines, "B3.Simd.Run2")
+            if mo is None:
+                mism.append(dict(kind="driver-crash", impl_name="rs+pure", ops=[], note="B3.Simd.Run2 does not build", log_tail=err))
+            else:
+                for i, (a, b) in enumerate(zip(impl_lines, model_lines)):
+                    x = out[i] if i < len(out) else "<missing>"
+                    y = mo[i] if i < len(mo) else "<missing>"
+                    if x == "unsupported":
+                        continue
+                    evals += 1
+                    if x != y and len(mism) < 6:
+                        mism.append(dict(kind="impl-vs-model", impl_name="rs+pure", ops=[a], impl_differs=True, impl_output=x[:300], model_output=y[:300],
+                                         note="generated Rust SSE2/AVX2 code (lane model) differs from the real intrinsics kernel; model input: " + b[:160]))
+                distinct |= set(model_lines)
+        else:
+            mism.append(dict(kind="driver-crash", impl_name="rs+pure", ops=[], log_tail=log[-2000:]))
+        # ---- C AVX-512 intrinsics (harness/c symbol avx512_c)
+        okc, cexe, clog = core.build_c()
+        if okc:
+            lines = []
+            for i in range(self.n):
+                k = rng.choice(["cip", "cxof"])
+                lines.append(f"CK {k} avx512_c {rhex(rng, 32)} {rhex(rng, 64)} {rng.randrange(0, 65)} {counters(rng)} {rng.randrange(256)}")
+            for i in range(max(8, self.n // 5)):
+                n = rng.choice([1, 3, 4, 7, 8, 9, 15, 16, 17, 20, 33])
+                ctr = min(rng.choice([0, (1 << 32) - rng.randrange(0, 34), (1 << 31) - rng.randrange(0, 34), rng.randrange(1 << 62)]), M64 - n)
+                lines.append(f"CK hmany avx512_c {n} {rng.choice([1, 1, 16])} {rng.randrange(1 << 30)} {rhex(rng, 32)} {ctr} {rng.randrange(2)} "
+                             f"{rng.randrange(256)} {rng.randrange(256)} {rng.randrange(256)} 0 0")
+                m = rng.randrange(1, 41)
+                c2 = min(rng.choice([(1 << 32) - rng.randrange(0, m + 1), (1 << 31) - rng.randrange(0, m + 1), rng.randrange(1 << 62), M64 - m]), M64 - m)
+                lines.append(f"CK xofmany avx512_c {rhex(rng, 32)} {rhex(rng, 64)} {rng.randrange(0, 65)} {c2} {rng.randrange(256)} {m}")
+            rc, out, _ = core.run_driver(cexe, lines)
+            mo, err = lean_run("RunSimdC512.lean", lines, "B3.Simd.RunC512")
+            if mo is None:
+                mism.append(dict(kind="driver-crash", impl_name="c", ops=[], note="B3.Simd.RunC512 does not build", log_tail=err))
+            else:
+                for i, a in enumerate(lines):
+                    x = out[i] if i < len(out) else "<missing>"
+                    y = mo[i] if i < len(mo) else "<missing>"
+                    if x == "unsupported":
+                        continue
+                    evals += 1
+                    if x != y and len(mism) < 12:
+                        mism.append(dict(kind="impl-vs-model", impl_name="c", ops=[a], impl_differs=True, impl_output=x[:300], model_output=y[:300],
+                                         note="generated C AVX-512 code (lane model) differs from the compiled intrinsics kernel avx512_c"))
+                distinct |= set(lines)
+        else:
+            mism.append(dict(kind="driver-crash", impl_name="c", ops=[], log_tail=clog[-2000:]))
+        return dict(evaluations=evals, distinct=distinct, hist={"cases": evals}, samples=[], mismatches=mism)
+
+
 def normalize(op, out):
     # flavours lacking a kernel / CPUs lacking an instruction set print `unsupported`: not comparable
     return out
@@ -152,7 +251,7 @@ def stages(tier, seed, witness_search=False):
     rs_scripts = [Script([o], tags=(" ".join(o.split(" ")[:3]),)) for o in rs_ops]
     c_scripts = [Script([o], tags=(" ".join(o.split(" ")[:3]),)) for o in c_ops]
     st = [LineStage("rs-asm", rs_scripts), LineStage("rs-pure", rs_scripts, features=("pure",)), LineStage("c-kernels", c_scripts, impl="c"),
-          SimdModelStage(seed + 5, 200 if tier == "quick" else 3000)]
+          SimdModelStage(seed + 5, 200 if tier == "quick" else 3000), SimdModelStage2(seed + 6, 60 if tier == "quick" else 1500)]
     if tier == "thorough":
         st.append(LineStage("rs-prefer_intrinsics", rs_scripts, features=("prefer_intrinsics",)))
     return st
@@ -160,7 +259,7 @@ def stages(tier, seed, witness_search=False):
 
 def replay(d, lean_exe):
     st = d.get("stage", "")
-    if st == "rs-sse41-generated-vs-cpu":
+    if st in ("rs-sse41-generated-vs-cpu", "simd-generated-vs-cpu"):
         return dict(still_fails=False, note="re-run the check with the same VERIF_SEED; the model input line is in `note`")
     if st == "c-kernels":
         return replay_line(d, lean_exe, impl="c")
